@@ -1,14 +1,17 @@
 From Coq Require Import List NArith ZArith Bool Permutation.
 Import ListNotations.
 Require Import MV.Common.Interleave MV.C16.Model MV.C16.Spec MV.C16.Conc MV.C16.ExecGen MV.C16.Retention
-               MV.C16.Proofs MV.C16.ProofsDrain MV.C16.ProofsUniform MV.C16.ProofsConc MV.C16.ProofsConc2 MV.C16.ProofsConc3 MV.C16.ExecProofs MV.C16.ProofsWalk2.
+               MV.C16.Proofs MV.C16.ProofsDrain MV.C16.ProofsUniform MV.C16.ProofsConc MV.C16.ProofsConc2 MV.C16.ProofsConc3 MV.C16.ExecProofs MV.C16.ProofsWalk2 MV.C16.ProofsWalk4.
 Open Scope N_scope.
 Require Import MV.C16.Properties.
 
 Check (C16_model_meets_spec : forall cap h, snd (run true (new cap) h) = spec_outs (N.of_nat cap) h).
 Print Assumptions C16_model_meets_spec.
-Check (C16_spec_ok_on_model : forall rk cap ops o,
+Check (C16_spec_ok_on_model_sequential : forall rk cap ops o,
   agrees rk (CSeq cap ops) o = true -> spec_ok rk (CSeq cap ops) o = true).
+Print Assumptions C16_spec_ok_on_model_sequential.
+Check (C16_spec_ok_on_model : forall rk c o,
+  known_class c = None -> agrees rk c o = true -> spec_ok rk c o = true).
 Print Assumptions C16_spec_ok_on_model.
 Check (C16_spec_ok_sound : forall rk cap ops os,
   spec_ok rk (CSeq cap ops) (OSeq os) = true -> Forall2 (predicts rk) (spec_outs cap ops) os).
@@ -110,12 +113,6 @@ Check (C16_concurrent_accounting_outside_known_class : forall cap progs sched,
     (d_unsampled d <= cap -> d_vals d = firstn (length (d_vals d)) W) /\
     sample_rate d = (if d_unsampled d <=? cap then (1, 1) else (cap, d_unsampled d))).
 Print Assumptions C16_concurrent_accounting_outside_known_class.
-Check (C16_spec_clauses_on_model_partial : forall rk capN progs sched tr' rs' d',
-  known_class (CThr capN progs sched) = None ->
-  agrees rk (CThr capN progs sched) (OThr tr' rs' d') = true ->
-  no_anomaly rs' = true /\
-  forallb (drain_ok rk capN progs rs' (w_pushes (walk tr'))) (w_drains (walk tr')) = true).
-Print Assumptions C16_spec_clauses_on_model_partial.
 Check (C16_consumers_exclusive_and_side_stable : forall cap ps sched,
   let c := fst (exec step site (init_config cap ps) sched) in
   (forall t u l l', nth_error (snd c) t = Some l -> nth_error (snd c) u = Some l' ->
